@@ -1,6 +1,6 @@
 """C17 Boolean, comparison and range rewrites are logically equivalent."""
 from pyvc.tables import run_gen
-from contracts import x_c17_bounds, x_tables, c_symbolic_range
+from contracts import x_c17_bounds, x_tables, c_symbolic_range, x_sum_closed_form
 from standins import c17_truth
 
 
@@ -15,6 +15,7 @@ def extra(tier, seed):
         run_gen("constants.REVERSE_OPERATOR_MAPPING", ("C17",), x_tables.gen_reverse, both),
         run_gen("fixes._negate_condition", ("C17",), x_tables.gen_negate, both),
         run_gen("symbolic_math.simplify_constrained_range/templates", ("C17",), c_symbolic_range.gen_template_meaning, both),
+        run_gen("symbolic_math._sum_range/closed-form", ("C17",), x_sum_closed_form.gen_sum_range, both),
     ]
 
 
